@@ -158,7 +158,7 @@ func (d *dumper) node(n ast.Node) {
 		cjk := false
 		if v.SoftLineBreak() && len(val) != 0 && d.ea != html.EastAsianLineBreaksNone {
 			if b, ok := firstRuneOf(n.NextSibling(), d.src); ok {
-				cjk = html.VerifSoftLineBreak(d.ea, util.ToRune(val, len(val)-1), b)
+				cjk = softLineBreakDecision(d, util.ToRune(val, len(val)-1), b)
 			}
 		}
 		emit(name, hx(val), b2s(v.SoftLineBreak())+b2s(v.HardLineBreak())+b2s(v.IsRaw())+b2s(cjk))
